@@ -61,7 +61,7 @@ def default_config():
         "password": None,  # DIGEST-MD5 needs to know the password to verify
         "realm": "example.org",
         "nonce": "OA6MG9tEQGm2hh",
-        "faults": [],  # (verb, occurrence (0-based), kind) kind in NO|BYE|SILENCE|MALFORMED
+        "faults": [],  # (verb, occurrence (0-based) or "*", kind) kind in NO|NO:<CODE>|BYE|BYE:REFERRAL|SILENCE|MALFORMED
         "host": "server.example.org",
     }
 
@@ -179,7 +179,7 @@ class RefServer:
         k = self.seen[verb]
         self.seen[verb] += 1
         for v, occ, kind in self.cfg["faults"]:
-            if v == verb and occ == k:
+            if v == verb and (occ == k or occ == "*"):
                 return kind
         return None
 
@@ -220,6 +220,14 @@ class RefServer:
             return
         if f == "NO":
             self.status(sock, b"NO", (b"TRYLATER", None, None), b"try again later", cmd)
+            return
+        if f and f.startswith("NO:"):
+            # refusal with a given response code, e.g. NO:QUOTA/MAXSIZE
+            self.status(sock, b"NO", (f[3:].encode(), None, None), b"refused", cmd)
+            return
+        if f == "BYE:REFERRAL":
+            self.status(sock, b"BYE", (b"REFERRAL", b"sieve://other.example.org", "quoted"), b"try the other server", cmd)
+            self.closed = True
             return
         if f == "MALFORMED":
             sock.feed(b"* what\r\n")
